@@ -245,7 +245,7 @@ def _call(item: Any) -> Any:
 
 
 def pmap(func: Callable[[Any], Any], items: list, jobs: int = 0, chunksize: int = 1,
-    init: Optional[Callable[[], None]] = None) -> Iterable[Any]:
+    init: Optional[Callable[[], None]] = None, fresh: bool = False) -> Iterable[Any]:
     """Fork-based unordered map. ``func`` and everything it closes over are inherited by fork, so
     they may be closures over live library objects."""
     global _WORK
@@ -258,7 +258,9 @@ def pmap(func: Callable[[Any], Any], items: list, jobs: int = 0, chunksize: int 
             yield _check_err(_call(it))
         return
     ctx = mp.get_context("fork")
-    with ctx.Pool(jobs, initializer=init) as pool:
+    # fresh=True: every item runs in a process newly forked from this one (items that mutate
+    # process-global state must not see each other)
+    with ctx.Pool(jobs, initializer=init, maxtasksperchild=1 if fresh else None) as pool:
         for r in pool.imap_unordered(_call, items, chunksize):
             yield _check_err(r)
 
